@@ -2,6 +2,7 @@
 
 from __future__ import annotations
 
+import contextlib
 import logging
 import os
 import shlex
@@ -24,6 +25,14 @@ if TYPE_CHECKING:  # pragma: nocover
     from infretis.classes.formatter import FileIO
     from infretis.classes.path import Path as InfPath
     from infretis.classes.system import System
+
+
+def _stop_process_group(exe) -> None:
+    """Terminate the process group of exe if it is still running."""
+    if exe.poll() is None:
+        os.killpg(os.getpgid(exe.pid), signal.SIGTERM)
+        exe.wait(timeout=360)
+
 
 logger = logging.getLogger(__name__)  # pylint: disable=invalid-name
 logger.addHandler(logging.NullHandler())
@@ -457,7 +466,9 @@ class LAMMPSEngine(EngineBase):
         return_code = None
         lammps_was_terminated = False
         step_nr = 0
-        with open(out_name, "wb") as fout, open(err_name, "wb") as ferr:
+        with open(out_name, "wb") as fout, open(
+            err_name, "wb"
+        ) as ferr, contextlib.ExitStack() as cleanup:
             exe = subprocess.Popen(
                 cmd,
                 stdin=subprocess.PIPE,
@@ -467,6 +478,8 @@ class LAMMPSEngine(EngineBase):
                 cwd=cwd,
                 preexec_fn=os.setsid,
             )
+            # never leave the program running, also if we raise below
+            cleanup.callback(_stop_process_group, exe)
             # wait for trajectories to appear
             while not os.path.exists(traj_file):
                 sleep(self.sleep)
